@@ -276,7 +276,7 @@ def t_mixed_draws(rng):
 def t_sign_flip(rng):
     p = _p(rng)
     text = f"s = 1\nx = 0\nwhile true:\n    s = -s {{{fs(p)}}} s\n    x = x + s\nend\n"
-    return dict(text=text, monoms=[({"x": 1}, None), ({"s": 1}, None)], feats=["sign-flip"])
+    return dict(text=text, monoms=[({"x": 1}, None), ({"s": 1}, None)], feats=["sign-flip"], max_order=4)
 
 
 def t_shift_scale(rng):
@@ -296,26 +296,26 @@ def t_normal_mix(rng):
     p = _p(rng)
     m, v = rng.randint(-1, 2), rng.choice([1, 4, F(1, 4)])
     text = f"x = 1\nwhile true:\n    u = Normal({m}, {fs(v)})\n    x = x + u {{{fs(p)}}} x - 1\nend\n"
-    return dict(text=text, monoms=[({"x": 1}, None)], feats=["continuous-normal"])
+    return dict(text=text, monoms=[({"x": 1}, None)], feats=["continuous-normal"], max_order=4, N=4)
 
 
 def t_uniform_coin(rng):
     p = _p(rng)
     hi = rng.randint(1, 3)
     text = f"x = 0\nwhile true:\n    u = Uniform(0, {hi})\n    v = Bernoulli({fs(p)})\n    x = x + u*v\nend\n"
-    return dict(text=text, monoms=[({"x": 1}, None)], feats=["continuous-uniform"])
+    return dict(text=text, monoms=[({"x": 1}, None)], feats=["continuous-uniform"], max_order=4, N=4)
 
 
 def t_beta_contraction(rng):
     a, b = rng.randint(1, 3), rng.randint(1, 3)
     text = f"x = 0\nwhile true:\n    u = Beta({a}, {b})\n    x = x/2 + u**2\nend\n"
-    return dict(text=text, monoms=[({"x": 1}, None)], feats=["continuous-beta"], max_order=3)
+    return dict(text=text, monoms=[({"x": 1}, None)], feats=["continuous-beta"], max_order=3, N=4)
 
 
 def t_truncnormal(rng):
     lo, hi = rng.choice([(-1, 2), (0, 1), (-2, 2)])
     text = f"x = 0\nwhile true:\n    u = TruncNormal(0, 1, {lo}, {hi})\n    x = x + u\nend\n"
-    return dict(text=text, monoms=[({"x": 1}, None)], feats=["continuous-truncnormal"], max_order=3)
+    return dict(text=text, monoms=[({"x": 1}, None)], feats=["continuous-truncnormal"], max_order=3, N=4)
 
 
 TEMPLATES = [t_walk_pos, t_walk3, t_walk_sym, t_bern_sum, t_du_sum, t_geometric, t_mult, t_categorical, t_dependent,
@@ -356,7 +356,7 @@ def template_case(cs, tier, idx):
     t = TEMPLATES[idx % len(TEMPLATES)] if idx < 2 * len(TEMPLATES) else rng.choice(TEMPLATES)
     d = t(rng)
     monom, lb = rng.choice(d["monoms"]) if idx >= len(TEMPLATES) else d["monoms"][0]
-    N = 6 if tier == "quick" else 9
+    N = min(d.get("N", 9), 6 if tier == "quick" else 9)
     goals = _goals_for(rng, monom, lb, tier, min(d.get("max_order", 6), 4 if tier == "quick" else 6))
     return {"id": f"prog-{t.__name__}-{cs}", "kind": "prog", "src": "template", "template": t.__name__, "text": d["text"],
             "monom": monom, "goals": goals, "N": N, "params": {k: fe(v) for k, v in d.get("params", {}).items()},
